@@ -262,7 +262,7 @@ def run(ctx):
             elif c < 0.55 and alive:
                 ops.append("dc:" + rng.choice(list(alive.values())))
             elif c < 0.9:
-                ops.append("o:" + rng.choice(pws + ["nope"]))
+                ops.append("o:" + (rng.choice(list(alive.values())) if alive and rng.random() < 0.5 else rng.choice(pws + ["nope"])))
             else:
                 ops.append("m:%d" % rng.randint(0, 1))
         ops += ["o:" + p for p in pws[:2]] + ["m:1", "m:0"]
